@@ -10,7 +10,8 @@ from ..machine import run_units
 from ..edgecheck import verdict_class
 from .args import parse
 
-MODULES = ["harness.corpus.basic", "harness.corpus.memory", "harness.corpus.nameclash", "harness.corpus.detlib"]
+MODULES = ["harness.corpus.basic", "harness.corpus.memory", "harness.corpus.nameclash", "harness.corpus.detlib",
+           "harness.corpus.indexmat"]
 
 
 def cfacts(rec, v):
